@@ -202,7 +202,7 @@ class HarnessBuild:
                 objs = []
                 for cs in [self.c] + [m for m in self.model_files() if not m.endswith('env_cbmc.c')]:
                     o = os.path.join(self.dir, 'n_' + os.path.basename(cs) + '.o')
-                    cmd = ['gcc', '-O1', '-g', '-w', '-c', cs, '-o', o, '-I', os.path.join(VERIF, 'rt'), '-I', os.path.join(VERIF, 'models'), '-DVERIF_NATIVE'] + ['-D' + d for d in self.h.get('model_defines', [])]
+                    cmd = ['gcc', '-O1', '-g', '-w', '-falign-functions=16', '-c', cs, '-o', o, '-I', os.path.join(VERIF, 'rt'), '-I', os.path.join(VERIF, 'models'), '-DVERIF_NATIVE'] + ['-D' + d for d in self.h.get('model_defines', [])]   # aligned functions: Itanium member-function pointers test bit 0 of the address
                     rc, out, w, _, to = run(cmd, timeout=600)
                     if rc != 0:
                         self.native_err = 'gcc failed on %s: %s' % (cs, out[-2000:]); return
